@@ -77,15 +77,14 @@ KERNEL int K(k_eq_h2_h2)(const size_t* sa, const unsigned* da, const size_t* sb,
   h2_t a, b; if (!mk2(a,sa,da) || !mk2(b,sb,db)) return -1;
   return ORD(utils::isequal, a, b);
 }
-// fixed-dim operands of different dim: only the order (smaller dim, larger dim) compiles with the current headers
-// (the shape comparison indexes the second std::array with the first one's compile-time length)
-KERNEL int K(k_eq_h1_h2)(const size_t* sa, const unsigned* da, const size_t* sb, const unsigned* db){
-  h1_t a; h2_t b; if (!mk1(a,sa,da) || !mk2(b,sb,db)) return -1;
-  return utils::isequal(a, b);
+// fixed-dim operands of different dim
+KERNEL int K(k_eq_h2_h1)(const size_t* sa, const unsigned* da, const size_t* sb, const unsigned* db, int order){
+  h2_t a; h1_t b; if (!mk2(a,sa,da) || !mk1(b,sb,db)) return -1;
+  return ORD(utils::isequal, a, b);
 }
-KERNEL int K(k_eq_h2_h3)(const size_t* sa, const unsigned* da, const size_t* sb, const unsigned* db){
+KERNEL int K(k_eq_h2_h3)(const size_t* sa, const unsigned* da, const size_t* sb, const unsigned* db, int order){
   h2_t a; h3_t b; if (!mk2(a,sa,da) || !mk3(b,sb,db)) return -1;
-  return utils::isequal(a, b);
+  return ORD(utils::isequal, a, b);
 }
 KERNEL int K(k_eq_f23_h2)(const unsigned* da, const size_t* sb, const unsigned* db, int order){
   f23_t a; for (size_t i=0;i<2;i++) for (size_t j=0;j<3;j++) a(i,j) = da[i*3+j];
